@@ -247,6 +247,9 @@ def state_catalogue():
     g("twokeys", lambda: seq(state(s_inc("k")), lit("a"), state(s_inc("j")), andcode(p_state("j", 1)), lit("b")))
     g("ginc", lambda: seq(act(lit("a"), b_ginc("gk")), state(s_inc("k")), lit("b")))
     g("actstate", lambda: act(seq(lit("a"), state(s_inc("k"))), b_rec("inner")))
+    g("nested_rep", lambda: star(seq(ref("Y"), lit("b"))), extra_rules=[rule("Y", seq(state(s_inc("k")), cls(ranges=[("a", "b")])))])
+    g("nested_opt", lambda: seq(opt(seq(act(seq(state(s_inc("k")), lit("a")), b_rec("in")), lit("b"))), opt(lit("a"))))
+    g("nested_plus", lambda: seq(plus(seq(label("q", seq(state(s_inc("k")), lit("a"))), opt(lit("b")))), star(seq(label("q", ref("Y")), lit("b")))), extra_rules=[rule("Y", seq(state(s_inc("k")), lit("a")))])
     # keys that do not exist when the parse starts: a key first written inside a
     # region that is rolled back must be absent (zero) afterwards
     def gf(name, x):
@@ -301,6 +304,13 @@ def throw_catalogue():
                                  act(any_(), rec("s3"))))])
     # handler in force only while the guarded expression runs (throw after it)
     g("after", [rule("S", choice(act(seq(recover(lit("a"), ["l1"], act(lit("b"), rec("r"))), throw("l1")), rec("s1")), act(star(any_()), rec("s2"))))])
+    # two sibling operators at the same depth listing different labels; the second guarded expression throws the first one's label
+    sib_first = lambda: recover(choice(lit("a"), throw("ea")), ["ea"], act(cls(chars="xy"), rec("skipA")))
+    sib_second = lambda: recover(choice(lit("b"), throw("ea")), ["eb"], act(cls(chars="xy"), rec("skipB")))
+    g("siblings", [rule("S", choice(act(seq(label("p", ref("F")), label("q", ref("G"))), rec("s1")), act(star(any_()), rec("s2")))),
+                   rule("F", sib_first()), rule("G", sib_second())])
+    g("siblings2", [rule("S", choice(act(label("p", recover(seq(ref("F"), ref("G")), ["ea"], act(lit("y"), rec("outer")))), rec("s1")), act(star(any_()), rec("s2")))),
+                    rule("F", sib_first()), rule("G", sib_second())])
     # throw under choice alternatives with state of labels
     g("labels", [rule("S", act(seq(label("x", lit("a")), label("y", recover(choice(lit("b"), throw("l1")), ["l1"], act(label("z", any_()), rec("r"))))), rec("s")))])
     return out
@@ -344,6 +354,10 @@ def fail_catalogue():
     g("dup", [rule("S", act(seq(choice(seq(lit("a"), lit("b")), seq(lit("a"), lit("b"), lit("c"))), lit("d")), b_rec("s")))])
     g("invcls", [rule("S", act(seq(cls(chars="a", inv=True), cls(chars="b", inv=True), not_(any_())), b_rec("s")))])
     g("newline", [rule("S", act(seq(star(lit("\n")), lit("a"), lit("\n"), lit("b")), b_rec("s")))])
+    # more alternatives at one offset than the initial capacity of the expected list (20), then the parse goes on
+    words = [x + y + z for x in "ab" for y in "abc" for z in "abcd"]
+    g("manyalts", [rule("S", act(seq(label("w", ref("W")), lit(";"), opt(ref("W")), not_(any_())), b_rec("s"))), rule("W", choice(*[lit(w) for w in words]))])
+    g("manyalts2", [rule("S", act(seq(star(seq(ref("W"), lit(" "))), lit(".")), b_rec("s"))), rule("W", choice(*[lit(w) for w in words[:22]]))])
     return out
 
 
@@ -365,6 +379,8 @@ def context_catalogue():
     g("rules", [rule("S", act(seq(label("a", ref("A")), label("b", ref("A"))), b_rec("s"))), rule("A", act(label("v", cls(ranges=[("a", "b")])), b_rec("A")))])
     g("mblit", [rule("S", act(seq(label("a", lit("aé")), label("b", star(act(cls(ranges=[("a", "b")]), b_rec("it")))), label("d", opt(lit("\n")))), b_rec("s")))])
     g("mblit2", [rule("S", choice(act(seq(lit("é\né"), label("b", act(any_(), b_rec("after")))), b_rec("s1")), act(seq(label("x", any_()), label("y", star(act(any_(), b_rec("it"))))), b_rec("s2"))))])
+    g("optseq", [rule("S", act(seq(label("i", plus(cls(ranges=[("0", "1")]))), label("f", opt(act(seq(lit("."), plus(cls(ranges=[("0", "1")]))), b_rec("frac")))), label("r", star(any_()))), b_rec("s")))])
+    g("optseq2", [rule("S", act(seq(label("f", opt(seq(lit("a"), lit("b")))), label("g", opt(ref("P"))), label("r", star(any_()))), b_rec("s"))), rule("P", seq(lit("a"), lit("c")))])
     g("predctx", [rule("S", act(seq(label("a", ref("B")), lit("c"), andcode(p_const(True, "pt")), state(s_inc("k")), opt(lit("d"))), b_rec("s"))), rule("B", act(lit("ab"), b_rec("B")))])
     return out
 
@@ -475,6 +491,10 @@ def opt_catalogue():
                     rule("IdStart", choice(ref("Letter"), lit("_"))), rule("IdPart", choice(ref("Letter"), lit("$"))), rule("Letter", cls(ranges=[("a", "c")]))])
     g("sharedcls2", [rule("S", top(seq(choice(ref("L"), lit("x")), choice(lit("y"), ref("L")), opt(choice(ref("L"), cls(chars="z")))))), rule("L", cls(chars="abc"))])
     g("sharedlit", [rule("S", top(seq(choice(seq(ref("K"), lit("1")), seq(ref("K"), lit("2"))), ref("K")))), rule("K", seq(lit("a"), lit("b")))])
+    # a leaf rule referenced twice from one rule, one reference sitting in a redundant nested group
+    g("doubleref", [rule("S", act(seq(label("lo", ref("Num")), seq(lit(".."), ref("Num")), not_(any_())), b_rec("s"))), rule("Num", act(plus(cls(ranges=[("0", "1")])), b_text()))])
+    g("doubleref2", [rule("S", top(choice(ref("L"), choice(lit("0"), ref("L"))))), rule("L", act(plus(lit("a")), b_text()))])
+    g("tripleref", [rule("S", top(seq(ref("K"), choice(seq(ref("K"), lit("x")), seq(lit("y"), seq(ref("K"), ref("K"))))))), rule("K", cls(chars="ab"))])
     # alternate entrypoints
     g("entry", [rule("S", top(seq(ref("A"), ref("B")))), rule("A", act(choice(lit("a"), lit("b")), b_rec("A"))), rule("B", act(seq(lit("c"), opt(ref("A"))), b_rec("B")))], entries=["", "A", "B"])
     g("unused", [rule("S", top(ref("A"))), rule("A", lit("a")), rule("U", act(lit("u"), b_rec("U")))], entries=["", "U"])
